@@ -54,14 +54,17 @@ def _case(draw):
             ops.append(['split', draw(st.integers(0, 9)), draw(st.integers(1, 14))])
         elif o == 'lose':
             if draw(st.integers(0, 2)) == 0:
-                ops.append(['lose'])
+                # the connection may be lost in the middle of a reply; afterwards the application may reconnect (a NEW protocol object)
+                ops.append(['lose', draw(st.sampled_from([None, None, 'mid-reply'])), draw(st.integers(0, 9)), draw(st.integers(1, 12))])
+                if draw(st.booleans()):
+                    ops.append(['reconnect'])
         else:
             ops.append([o, draw(st.integers(0, 9))])
     return {'variant': variant, 'tid_start': draw(st.sampled_from([0, 0, 0xFFF0, 0xFFFD, 0xFFFE])), 'ops': ops,
             # the protocol accepts a framer instance or a framer class
             'framer_as_class': draw(st.booleans()),
             # ModbusClientProtocol itself or the ready-made subclass (ModbusTcpClientProtocol / ModbusSerClientProtocol with their default framer)
-            'ctor': draw(st.sampled_from(['base', 'base', 'subclass']))}
+            'ctor': draw(st.sampled_from(['base', 'base', 'subclass', 'default', 'factory']))}
 
 
 def strategy(tier):
@@ -89,30 +92,33 @@ def run_case(case):
     discs = []
     framing = 'rtu' if variant == 'rtu' else 'tcp'
     fcls = ModbusSocketFramer if framing == 'tcp' else ModbusRtuFramer
-    if variant == 'udp':
-        from pymodbus.client.asynchronous.twisted import ModbusUdpClientProtocol
-        proto = ModbusUdpClientProtocol(host='peer', port=502)
+    class DatagramTransport(object):
+        def __init__(self):
+            self.buf = b''
 
-        class DatagramTransport(object):
-            def __init__(self):
-                self.buf = b''
+        def write(self, packet, addr=None):
+            self.buf += bytes(packet)
 
-            def write(self, packet, addr=None):
-                self.buf += bytes(packet)
+        def value(self):
+            return self.buf
 
-            def value(self):
-                return self.buf
-        tr = DatagramTransport()
-    elif case.get('ctor') == 'subclass':
-        from pymodbus.client.asynchronous.twisted import ModbusTcpClientProtocol, ModbusSerClientProtocol
-        proto = (ModbusTcpClientProtocol if variant == 'tcp' else ModbusSerClientProtocol)()
-        labels.append('ready-made-subclass')
-        tr = StringTransport()
-    else:
-        proto = ModbusClientProtocol(framer=fcls if case.get('framer_as_class') else fcls(ClientDecoder()))
-        if case.get('framer_as_class'):
+    def connect():
+        """a protocol object + transport, built the way the case says (called again for every reconnect)"""
+        if variant == 'udp':
+            from pymodbus.client.asynchronous.twisted import ModbusUdpClientProtocol
+            return ModbusUdpClientProtocol(host='peer', port=502), DatagramTransport()
+        if case.get('ctor') == 'subclass':
+            from pymodbus.client.asynchronous.twisted import ModbusTcpClientProtocol, ModbusSerClientProtocol
+            return (ModbusTcpClientProtocol if variant == 'tcp' else ModbusSerClientProtocol)(), StringTransport()
+        if case.get('ctor') in ('default', 'factory') and variant == 'tcp':
+            from pymodbus.client.asynchronous.twisted import ModbusClientFactory
+            return (ModbusClientProtocol() if case['ctor'] == 'default' else ModbusClientFactory().buildProtocol(None)), StringTransport()
+        return ModbusClientProtocol(framer=fcls if case.get('framer_as_class') else fcls(ClientDecoder())), StringTransport()
+    proto, tr = connect()
+    if variant != 'udp':
+        labels.append('ctor:%s' % (case.get('ctor') or 'base'))
+        if case.get('framer_as_class') and (case.get('ctor') or 'base') == 'base':
             labels.append('framer-given-as-class')
-        tr = StringTransport()
     proto.makeConnection(tr)
     proto.transaction.tid = case['tid_start']
     reqs = []          # dict(idx, tid, unit, count, fired=[...], failed=[...], answered, frame)
@@ -218,6 +224,15 @@ def run_case(case):
                     if r['tid'] is not None and any(x['tid'] == r['tid'] for x in out) and framing == 'tcp':
                         discs.append(Disc('tid-reused-while-outstanding', 'transaction id %d issued twice among outstanding requests' % r['tid']))
                 continue
+            if op[0] == 'reconnect':
+                if lost and variant != 'udp':
+                    proto, tr = connect()
+                    proto.makeConnection(tr)
+                    sent_len[0] = 0
+                    lost = False
+                    lost_flag[0] = False
+                    labels.append('reconnected')
+                continue
             if op[0] == 'bad-req':
                 from pymodbus.register_write_message import WriteSingleRegisterRequest, WriteMultipleRegistersRequest
                 bad = {'value-too-large': lambda: WriteSingleRegisterRequest(1, 0x10000, unit=op[1]),
@@ -281,6 +296,10 @@ def run_case(case):
                 if pend:
                     nt = True
                     labels.append('loss-with-pending')
+                    if len(op) > 1 and op[1] == 'mid-reply':
+                        x = pend[0] if framing == 'rtu' else pend[op[2] % len(pend)]
+                        feed(x['frame'][:max(1, min(len(x['frame']) - 1, op[3]))], 'first part of a reply, then the connection is lost')
+                        labels.append('loss-mid-reply')
                 proto.connectionLost(None)
                 for x in pend:
                     x['lost'] = True
